@@ -340,6 +340,8 @@ def main(argv=None):
         "paths": paths,
         "by_backend": by_backend,
         "solver_s": round(solver_s, 3),
+        "slowest_obligation_s": round(max([o.seconds for r in results for o in r.obligations] or [0.0]), 3),
+        "solver_timeout_s_per_obligation": timeout_ms / 1000.0,
         "functions_under_contract": sorted(functions),
         "undecided": [u for u, _ in undecided + unmodelled][:200],
         "engine_gaps": [u for u, _ in gaps][:50],
